@@ -19,9 +19,10 @@ Theorem C07_cxt_roundtrip : forall K,
 Proof. exact cxt_roundtrip. Qed.
 Print Assumptions C07_cxt_roundtrip.
 
-(* csv with a one-character separator: no name contains the separator, '\n' or '\r'; the two
-   words are different, free of the separator and of white space; the separator is not a line
-   break -- and (guard of finding D57) not a white-space character *)
+(* csv with a one-character separator, exactly as the property states it: no name contains the
+   separator, '\n' or '\r'; the two words are different and free of the separator and of line
+   breaks; the separator is not a line break.  White space is allowed everywhere, also as the
+   separator (tab-separated files): read_csv strips '\n' only (repair bd678e6 of defect D57) *)
 Theorem C07_csv_roundtrip : forall sep wt wf K,
   csv_admissibleb sep wt wf K = true -> read_csv sep wt wf (write_csv sep wt wf K) = SOk (no_desc K).
 Proof. exact csv_roundtrip. Qed.
@@ -64,18 +65,19 @@ Example C07_cxt_inner_spaces_fine :
   cxt_admissibleb (K22 s_a (32%N :: s_b) (s_x ++ [32%N]) (32%N :: s_y)) = true.
 Proof. vm_compute. reflexivity. Qed.
 
-(* finding D57: the property as stated (no separator / line break in a name) is false for a
-   tab-separated file -- read_csv strips the text and loses the leading separator *)
-Definition csv_roundtrip_as_stated : Prop :=
-  forall sep wt wf K, csv_statedb sep wt wf K = true ->
-                      read_csv sep wt wf (write_csv sep wt wf K) = SOk (no_desc K).
-Theorem C07_csv_roundtrip_as_stated_refuted : ~ csv_roundtrip_as_stated.
-Proof.
-  intros H. specialize (H 9%N s_True s_False (K22 s_a s_b s_x s_y)).
-  assert (X : csv_statedb 9 s_True s_False (K22 s_a s_b s_x s_y) = true) by (vm_compute; reflexivity).
-  specialize (H X). vm_compute in H. discriminate H.
-Qed.
-Print Assumptions C07_csv_roundtrip_as_stated_refuted.
+(* the former finding D57: a tab-separated file, names and words with blanks -- admissible now *)
+Example C07_csv_tab_separated_admissible :
+  csv_admissibleb 9 (s_True ++ [32%N]) (32%N :: s_False) (K22 (32%N :: s_a) s_b (s_x ++ [32%N]) s_y) = true
+  /\ read_csv 9 s_True s_False (write_csv 9 s_True s_False (K22 s_a s_b s_x s_y)) = SOk (K22 s_a s_b s_x s_y).
+Proof. split; vm_compute; reflexivity. Qed.
+
+(* what is still excluded is excluded for a reason: a line break inside a word ends the line *)
+Theorem C07_csv_newline_in_word_refuted :
+  table_okb (K22 s_a s_b s_x s_y) = true /\
+  read_csv 44 (s_True ++ [NL]) s_False (write_csv 44 (s_True ++ [NL]) s_False (K22 s_a s_b s_x s_y))
+  = SErr EValue.
+Proof. split; vm_compute; reflexivity. Qed.
+Print Assumptions C07_csv_newline_in_word_refuted.
 
 (* a separator inside an attribute name makes one name too many: rejected when read back *)
 Theorem C07_csv_sep_in_name_refuted :
@@ -170,7 +172,8 @@ Definition ex_p : pcv :=
   mk_pcv [0] [s_g1] [CInterval 1024 2048; CSet [1; 3]%Z] [PIntervalNp; PSet] [s_m1; s_m2] [] (Some 5%Z).
 
 Example C07_nonvacuous :
-  cxt_admissibleb ex_K = true /\ csv_admissibleb 59 s_True s_False ex_K = true /\ table_okb ex_K = true
+  cxt_admissibleb ex_K = true /\ csv_admissibleb 59 s_True s_False ex_K = true
+  /\ csv_admissibleb 9 s_True s_False ex_K = true /\ table_okb ex_K = true
   /\ mv_admissibleb ex_mv = true /\ fc_admissibleb [s_g1; s_g2] [s_m1; s_m2] (ex_c [0] [0]) = true
   /\ pc_admissibleb ex_p = true /\ lat_admissibleb [s_g1; s_g2] [s_m1; s_m2] ex_L = true
   /\ write_cxt ex_K = [66; 10; 10; 50; 10; 50; 10; 10; 103; 49; 10; 103; 32; 50; 10; 1078; 10; 88; 46; 10;
